@@ -18,6 +18,7 @@ import onnx_ir.external_data as _ed
 from iosim import fsseam, tensors, workload
 from iosim.sched import HarnessError, SimAbort
 from iosim import simthreading
+from simcore import knobs as _knobs
 from simcore.prng import Streams, digest
 
 PROPERTY = "C09"
@@ -180,6 +181,7 @@ def gen_case(run_seed: int, tier: str, index: int = 0) -> dict:
     tensors.assign_layouts(specs, st.rng("layouts"))
     case = {
         "property": PROPERTY,
+        "warnings_error": _knobs.warnings_knob(run_seed, 0.15),
         "run_seed": run_seed,
         "tensors": specs,
         "graphs": graphs,
@@ -245,6 +247,11 @@ def _drop_traceback_locals(exc) -> None:
 
 
 def run_case(case: dict) -> dict:
+    with _knobs.interpreter(case):
+        return _run_case(case)
+
+
+def _run_case(case: dict) -> dict:
     case = copy.deepcopy(case)
     root = workload.new_scratch("c09")
     stats: dict = {}
